@@ -131,7 +131,7 @@ def u7(ctx, F, arms, fn, sym, rule="C12.U7"):
         """the condition with every token variable it mentions standing for `word`"""
         a = {x: ("lit", word) for x in hir.subterms(t) if isinstance(x, tuple) and x[:1] == ("var",)}
         for x in hir.subterms(t):
-            if isinstance(x, tuple) and x[:1] == ("call",) and str(x[1]).endswith("Iterator::next"):
+            if isinstance(x, tuple) and x[:1] == ("call",) and str(x[1]).endswith("::next"):
                 a[x] = ("ctor", "std::prelude::v1::Some", (("lit", word),))
         return hir.fold(t, a)
 
@@ -158,6 +158,8 @@ def u7(ctx, F, arms, fn, sym, rule="C12.U7"):
                                    for a_ in conds)
                 elif mentions_moves(v):
                     ok = word_test(v, "moves") == ("lit", True) and word_test(v, "x") == ("lit", False)      # flag = (next token == "moves")
+                elif v[:1] != ("lit",):
+                    ok = True       # the flag is computed elsewhere (a helper's result): nothing to decide here
         # a `take_while` that collects the words of the FEN stops at the keyword (and only there): otherwise the move list is
         # swallowed into the FEN text
         for n, anc in hir.walk(arm):
@@ -303,6 +305,31 @@ def u1_u5(ctx, F):
                   what="a move can be played on a path where the comparison with the legal moves of the current position failed or was "
                        "skipped (the acceptance condition has an alternative that does not look at the position reached)",
                   expected="no play when `legal.any(|m| m == parsed && m.uci_notation() == text)` is false", found=hir.fmt(folded, 200))
+        # ... and it is a conjunction: the parsed move must BE the legal move and its text must BE the input (either alone lets through a
+        # string that aliases another move, or plays a parsed value that is not the legal move it was matched with)
+        for n, a2 in hir.walk(fn["hir"]["body"]):
+            if n.get("k") == "MethodCall" and n["name"] in ("any", "find", "position") and n.get("args") and \
+                    any(x.get("k") == "MethodCall" and x["name"] == "uci_notation" for x, _ in hir.walk(n)):
+                clo = hir.strip(n["args"][0])
+                if clo.get("k") != "Closure":
+                    continue
+                cb = sym2(clo["body"])
+                atoms_t, atoms_e = [], []
+                for t_ in hir.subterms(cb):
+                    if isinstance(t_, tuple) and t_[:2] == ("bin", "==") and len(t_) == 4:
+                        if any(isinstance(x_, tuple) and x_[:1] == ("call",) and str(x_[1]) == WR for x_ in t_[2:4]):
+                            atoms_t.append(t_)
+                        elif not any(isinstance(x_, tuple) and x_[:1] == ("lit",) for x_ in t_[2:4]):
+                            atoms_e.append(t_)
+                if len(atoms_t) == 1 and len(atoms_e) == 1:
+                    tt = {}
+                    for e_ in (True, False):
+                        for x_ in (True, False):
+                            tt[(e_, x_)] = hir.fold(cb, {atoms_e[0]: ("lit", e_), atoms_t[0]: ("lit", x_)})
+                    okc = tt[(True, True)] == ("lit", True) and all(tt[k_] == ("lit", False) for k_ in ((True, False), (False, True), (False, False)))
+                    ctx.check("C12.U1", "acceptance-needs-both-the-same-move-and-the-same-text", okc, fn=POS, file=fn["file"], line=hir.line(n),
+                              what="a legal move matches the input only if it equals the parsed move AND its text equals the input string",
+                              expected="m == parsed && m.uci_notation() == text", found={str(k_): hir.fmt(v_, 40) for k_, v_ in tt.items()})
         ctx.check("C12.U1", "plays-the-matched-value", same_value or text_cmp and _plays_parsed(played), fn=POS, file=fn["file"],
                   line=hir.line(call), what="the move played must be the parsed value that was matched against the legal list",
                   found=hir.fmt(played, 80))
